@@ -7,7 +7,7 @@ CONSTANTS
   Ks = {0, 1}
   Fmts = {"bc_idx", "idx_bc"}
   NFiles = {1}
-  Lazy = {FALSE, TRUE}
+  Lazy = {"none", "other", "this"}
   Touches = {"lookup", "getitem"}
   Variant = "falsy_index"
 INVARIANT TypeOK
